@@ -193,12 +193,10 @@ Section Dgram.
     - destruct (callback _ _ _ _ E X c w r); [eapply IH; exact H|discriminate].
   Qed.
 
-  Lemma dgram_fargs : forall c w e, cfg_broadcast c = false ->
+  (* since /repo 168efb6 the threaded datagram handler prepares the unit list like asyncio does *)
+  Lemma dgram_fargs : forall c w e,
     fargs_for (fc_loop code SyncUdp) c w e = fargs_for (fc_loop code AioUdp) c w false.
-  Proof.
-    intros c w e H. unfold Frontends.fargs_for, Frontends.units_for. cbn.
-    unfold prep_units. rewrite H. reflexivity.
-  Qed.
+  Proof. intros c w e. reflexivity. Qed.
 
   (* asyncio: one datagram of whole frames on which nothing is raised *)
   Lemma aio_dgram_step : forall c w bs, whole_frames bs ->
@@ -222,18 +220,18 @@ Section Dgram.
   Qed.
 
   (* threaded: the same datagram; the handler then reads the None it left in self.request *)
-  Lemma sync_dgram_activation : forall c w bs w' o, cfg_broadcast c = false -> whole_frames bs -> empty_read_idle ->
+  Lemma sync_dgram_activation : forall c w bs w' o, whole_frames bs -> empty_read_idle ->
     (let '(ds, ff, exn) := e_recv _ _ _ _ E (fargs_for (fc_loop code AioUdp) c w false) finit bs in
      deliver (fc_exec code AioUdp) c w ds ff exn []) = (w', finit, o, None) ->
     exists cs', serve_activation SyncUdp c w fresh_conn (IData bs) = (w', cs', o, Stop).
   Proof.
-    intros c w bs w' o Hb [Hne Hw] Hidle Hd.
+    intros c w bs w' o [Hne Hw] Hidle Hd.
     assert (He : is_empty bs = false) by (destruct bs; [congruence|reflexivity]).
     assert (H1 : serve_step SyncUdp c w fresh_conn (IData bs) = (w', fresh_conn, o, Continue)).
     { unfold Frontends.serve_step, Frontends.serve_data.
       cbn [pre_raise fc_loop code loop_of loop_SyncUdp ls_addr_fmt ls_listen_gate ls_units andb].
       rewrite He. cbn [andb].
-      pose proof (dgram_fargs c w false Hb) as Hf.
+      pose proof (dgram_fargs c w false) as Hf.
       cbn [fc_loop fc_exec code loop_of exec_of] in Hf, Hd |- *. rewrite Hf.
       change (cs_f FS fresh_conn) with finit.
       change exec_SyncUdp with exec_AioUdp.
@@ -268,7 +266,7 @@ Section Dgram.
   Proof. intros a; destruct a; cbn; congruence. Qed.
 
   Lemma dgram_equiv : forall c dgs sva svs,
-    cfg_broadcast c = false -> empty_read_idle ->
+    empty_read_idle ->
     Forall (fun kb => whole_frames (snd kb)) dgs ->
     sv_world _ _ sva = sv_world _ _ svs -> sv_shared _ _ sva = fresh_conn ->
     dgram_clean c (sv_world _ _ sva) dgs = true ->
@@ -277,7 +275,7 @@ Section Dgram.
     sv_world _ _ (fst (run_events SyncUdp c svs (dgram_events dgs))) =
     sv_world _ _ (fst (run_events AioUdp c sva (dgram_events dgs))).
   Proof.
-    intros c dgs. induction dgs as [|[k b] t IH]; intros sva svs Hb Hidle Hall Hw Hsh Hcl.
+    intros c dgs. induction dgs as [|[k b] t IH]; intros sva svs Hidle Hall Hw Hsh Hcl.
     - cbn. split; [reflexivity|symmetry; exact Hw].
     - inversion Hall as [|? ? Hwb Ht]; subst. cbn [snd] in Hwb.
       cbn [dgram_clean] in Hcl.
@@ -287,7 +285,7 @@ Section Dgram.
         by (rewrite Hst; reflexivity).
       destruct (aio_dgram_step c (sv_world _ _ sva) b Hwb Hsnd) as (w' & o & Heq & Hd).
       rewrite Hst in Heq. inversion Heq; subst w1 cs1 o1. clear Heq.
-      destruct (sync_dgram_activation c (sv_world _ _ sva) b w' o Hb Hwb Hidle Hd) as [cs' Hsy].
+      destruct (sync_dgram_activation c (sv_world _ _ sva) b w' o Hwb Hidle Hd) as [cs' Hsy].
       set (sva' := {| sv_world := w'; sv_conns := sv_conns _ _ sva; sv_shared := fresh_conn |}).
       set (svs' := {| sv_world := w'; sv_conns := sv_conns _ _ svs; sv_shared := sv_shared _ _ svs |}).
       assert (HA : serve_event AioUdp c sva k (IData b) = (sva', o, Continue)).
@@ -296,12 +294,107 @@ Section Dgram.
       assert (HS : serve_event SyncUdp c svs k (IData b) = (svs', o, Stop)).
       { unfold Frontends.serve_event, Frontends.conn_state.
         change (ls_site (fc_loop code SyncUdp)) with PerDatagram. cbv iota. rewrite <- Hw, Hsy. reflexivity. }
-      specialize (IH sva' svs' Hb Hidle Ht eq_refl eq_refl Hcl).
+      specialize (IH sva' svs' Hidle Ht eq_refl eq_refl Hcl).
       cbn [dgram_events map fst snd Frontends.run_events]. fold (dgram_events t).
       rewrite HA, HS.
       destruct (run_events SyncUdp c svs' (dgram_events t)) as [sfs lgs].
       destruct (run_events AioUdp c sva' (dgram_events t)) as [sfa lga].
       cbn [fst snd outs_of map lg_conn lg_out] in *. destruct IH as [IH1 IH2].
       split; [f_equal; exact IH1|exact IH2].
+  Qed.
+
+  (* ---- Twisted datagram protocol vs asyncio datagram handler: both keep one framer for all peers,
+     so no whole-frame hypothesis is needed; Twisted does not consult should_respond ---------- *)
+
+  Definition always_responds : Prop := forall p, e_should_respond _ _ _ _ E p = true.
+
+  Lemma send_equiv_resp : forall X Y w p, always_responds -> (forall w, e_count_bus _ _ _ _ E w = w) ->
+    send FS Req Resp World E X w p = send FS Req Resp World E Y w p.
+  Proof.
+    intros X Y w p Hr Hbus. unfold Frontends.send. rewrite Hr, !Hbus, !Bool.andb_false_r.
+    destruct (xs_counts_bus X), (xs_counts_bus Y); reflexivity.
+  Qed.
+
+  Definition exec_agree_resp (X Y : exec_skel) : Prop :=
+    xs_ladder X = xs_ladder Y /\ xs_copy_tid X = xs_copy_tid Y /\ xs_copy_uid X = xs_copy_uid Y.
+
+  Lemma callback_equiv_resp : forall X Y c w r, exec_agree_resp X Y -> cfg_broadcast c = false ->
+    always_responds -> (forall w, e_count_bus _ _ _ _ E w = w) ->
+    callback FS Req Resp World E X c w r = callback FS Req Resp World E Y c w r.
+  Proof.
+    intros X Y c w r (Hl & Ht & Hu) Hb Hr Hbus. unfold Frontends.callback.
+    rewrite Hb, !Bool.andb_false_r. cbn [andb].
+    assert (HT : forall w1 p, tail FS Req Resp World E X false w1 r p = tail FS Req Resp World E Y false w1 r p).
+    { intros w1 p. unfold Frontends.tail. rewrite !Bool.andb_false_r. destruct p as [p|]; [|reflexivity].
+      rewrite Ht, Hu. apply send_equiv_resp; assumption. }
+    destruct (e_run _ _ _ _ E w (e_uid _ _ _ _ E r) r) as [w1 [p|e]]; [apply HT|].
+    rewrite Hl. destruct (first_match (xs_ladder Y) (RPy e)) as [[code|code]|]; [| |reflexivity].
+    - destruct (cfg_ignore_missing c); [reflexivity|apply HT].
+    - apply HT.
+  Qed.
+
+  Lemma deliver_equiv_resp : forall X Y c ds w ff exn acc, exec_agree_resp X Y -> cfg_broadcast c = false ->
+    always_responds -> (forall w, e_count_bus _ _ _ _ E w = w) ->
+    deliver X c w ds ff exn acc = deliver Y c w ds ff exn acc.
+  Proof.
+    induction ds as [|[f r] t IH]; intros; cbn; [reflexivity|].
+    rewrite (callback_equiv_resp X Y) by assumption.
+    destruct (callback _ _ _ _ E Y c w r); [apply IH; assumption|reflexivity].
+  Qed.
+
+  (* one datagram: same world, same bytes; identical result when nothing is raised *)
+  Lemma tw_dgram_step : forall c w cs bs, common_features FS Req Resp World E c -> always_responds -> bs <> [] ->
+    let ra := serve_step TwUdp c w cs (IData bs) in
+    let rb := serve_step AioUdp c w cs (IData bs) in
+    fst (fst (fst ra)) = fst (fst (fst rb)) /\ snd (fst ra) = snd (fst rb) /\
+    (snd rb = Continue -> ra = rb).
+  Proof.
+    intros c w cs bs [Hb Hl Hbus] Hr Hne. cbn zeta.
+    assert (He : is_empty bs = false) by (destruct bs; [congruence|reflexivity]).
+    unfold Frontends.serve_step, Frontends.serve_data.
+    cbn [pre_raise fc_loop code loop_of loop_AioUdp loop_TwUdp ls_addr_fmt ls_listen_gate ls_units andb].
+    rewrite Hl, He. cbn [andb].
+    assert (Hf : fargs_for loop_TwUdp c w false = fargs_for loop_AioUdp c w false).
+    { unfold Frontends.fargs_for, Frontends.units_for. cbn. unfold prep_units. rewrite Hb. reflexivity. }
+    rewrite Hf.
+    destruct (e_recv _ _ _ _ E (fargs_for loop_AioUdp c w false) (cs_f _ cs) bs) as [[ds ff] exn].
+    rewrite (deliver_equiv_resp (fc_exec code TwUdp) (fc_exec code AioUdp)) by
+      (try assumption; repeat split; reflexivity).
+    destruct (deliver (fc_exec code AioUdp) c w ds ff exn []) as [[[w' f'] outs] exn']. cbn [fst snd].
+    repeat split. intro Hc. destruct exn' as [e|]; cbn [option_map] in *.
+    - exfalso. destruct e; vm_compute in Hc; discriminate.
+    - reflexivity.
+  Qed.
+
+  (* no datagram of the history makes the asyncio handler see an exception *)
+  Fixpoint events_clean (c : cfg) (sv : server FS World) (l : list (nat * bytes)) : bool :=
+    match l with
+    | [] => true
+    | (k, b) :: t => let '(sv', _, a) := serve_event AioUdp c sv k (IData b) in
+                     action_eqb a Continue && events_clean c sv' t
+    end.
+
+  Lemma tw_dgram_equiv : forall c dgs sv,
+    common_features FS Req Resp World E c -> always_responds ->
+    Forall (fun kb => snd kb <> []) dgs ->
+    events_clean c sv dgs = true ->
+    run_events TwUdp c sv (dgram_events dgs) = run_events AioUdp c sv (dgram_events dgs).
+  Proof.
+    intros c dgs. induction dgs as [|[k b] t IH]; intros sv Hc Hr Hall Hcl; [reflexivity|].
+    inversion Hall as [|? ? Hb Ht]; subst. cbn [snd] in Hb. cbn [events_clean] in Hcl.
+    cbn [dgram_events map fst snd Frontends.run_events]. fold (dgram_events t).
+    assert (Hev : serve_event AioUdp c sv k (IData b) = serve_event TwUdp c sv k (IData b) \/
+                  snd (serve_event AioUdp c sv k (IData b)) <> Continue).
+    { destruct (tw_dgram_step c (sv_world _ _ sv) (sv_shared _ _ sv) b Hc Hr Hb) as (_ & _ & Heq).
+      unfold Frontends.serve_event, Frontends.conn_state, Frontends.serve_activation.
+      change (ls_site (fc_loop code AioUdp)) with PerServer. change (ls_site (fc_loop code TwUdp)) with PerServer.
+      cbv iota.
+      destruct (serve_step AioUdp c (sv_world _ _ sv) (sv_shared _ _ sv) (IData b)) as [[[w1 cs1] o1] a1] eqn:Ha.
+      destruct a1; try (right; cbn; discriminate).
+      left. rewrite (Heq eq_refl). reflexivity. }
+    destruct (serve_event AioUdp c sv k (IData b)) as [[sv' o] a] eqn:Hae.
+    apply andb_prop in Hcl. destruct Hcl as [Ha Hcl]. apply action_eqb_continue' in Ha. subst a.
+    destruct Hev as [Hev|Hev]; [|exfalso; apply Hev; reflexivity].
+    rewrite <- Hev. rewrite (IH sv' Hc Hr Ht Hcl). reflexivity.
   Qed.
 End Dgram.
